@@ -156,7 +156,20 @@ def main(path):
             args[k] = build_self(oc, v.get("fields", {})) if isinstance(oc, type) else Blank()
             continue
         if k == "self":
-            selfobj = build_self(cls, v.get("fields", {}))
+            selfobj = None
+            if rep.get("warmup_calls"):
+                # a history, not a state: the object is made by its real constructor (no arguments), so whatever the
+                # earlier calls leave behind is a reachable state
+                try:
+                    selfobj = cls()
+                    for fk, fv in (v.get("fields", {}) or {}).items():
+                        object.__setattr__(selfobj, fk, decode(fv))
+                except Exception as e:     # noqa
+                    print(f"cannot construct {cls.__name__}() for a call history: {e!r}")
+                    print("NOT-REPRODUCED")
+                    return
+            if selfobj is None:
+                selfobj = build_self(cls, v.get("fields", {}))
         elif "." in k or k.startswith("_"):
             continue
         else:
@@ -167,6 +180,14 @@ def main(path):
         f = f.method          # automat MethodicalOutput / MethodicalInput wrap the real function
     sig = inspect.signature(f)
     call_args = {k: v for k, v in args.items() if k in sig.parameters}
+    for wi, wc in enumerate(rep.get("warmup_calls") or []):
+        wargs = dict(call_args)
+        wargs.update({k: decode(x) for k, x in wc.items() if k in sig.parameters})
+        try:
+            wr = f(selfobj, **wargs) if selfobj is not None else f(**wargs)
+            print(f"earlier call {wi} on the same object: {target} with {wargs!r} returned {wr!r}"[:600])
+        except BaseException as e:       # noqa
+            print(f"earlier call {wi} on the same object: {target} with {wargs!r} raised {type(e).__name__}: {e}"[:600])
     old = {"self": copy.deepcopy(selfobj) if selfobj is not None else None}
     for k, v in call_args.items():
         try:
